@@ -642,18 +642,27 @@ class TFLiteSemantic:
         valid = (new_axis == 0) or (shrink_axis == 0)
         return valid, f"Op has new_axis_mask={new_axis} and shrink_axis_mask={shrink_axis}"
 
-    def _get_slice_offsets(input_shape, offset_tens, offset_mask, is_begin=True):
+    def _get_slice_offsets(input_shape, offset_tens, offset_mask, is_begin=True, new_axis_mask=0):
         # For strided slice operator: get start or end offsets
-        # input_shape: List[int], offset_tens: Tensor, offset_mask: int, is_begin: bool = True
+        # input_shape: List[int], offset_tens: Tensor, offset_mask: int, is_begin: bool = True, new_axis_mask: int = 0
         offsets = len(input_shape) * [0] if is_begin else input_shape[:]
-        for idx in range(len(input_shape)):
+        # begin, end, strides and the masks are indexed by position in the slice specification. A position whose
+        # new_axis_mask bit is set inserts a dimension in the output: its entry is ignored and it consumes no
+        # input dimension. Input dimensions beyond the specification are taken in full
+        idx = 0
+        for spec in range(len(offset_tens.values)):
+            if (new_axis_mask & (1 << spec)) != 0:
+                continue
+            if idx >= len(input_shape):
+                break
             # If the i:th bit in the mask is not set then the value in offset_tens[i] should be used, otherwise it
             # should be ignored
-            if (offset_mask & (1 << idx)) == 0:
-                offsets[idx] = offset_tens.values[idx]
+            if (offset_mask & (1 << spec)) == 0:
+                offsets[idx] = offset_tens.values[spec]
                 if offsets[idx] < 0:
                     # Convert negative indexing to positive ones
                     offsets[idx] += input_shape[idx]
+            idx += 1
         return offsets
 
     @staticmethod
@@ -662,8 +671,13 @@ class TFLiteSemantic:
         ifm, begin, end, _ = op.inputs
         shrink_axis_mask = op.attrs["shrink_axis_mask"]
         # Calculate offset begin/end
-        offset_begin = TFLiteSemantic._get_slice_offsets(ifm.shape, begin, op.attrs["begin_mask"], is_begin=True)
-        offset_end = TFLiteSemantic._get_slice_offsets(ifm.shape, end, op.attrs["end_mask"], is_begin=False)
+        new_axis_mask = op.attrs["new_axis_mask"]
+        offset_begin = TFLiteSemantic._get_slice_offsets(
+            ifm.shape, begin, op.attrs["begin_mask"], is_begin=True, new_axis_mask=new_axis_mask
+        )
+        offset_end = TFLiteSemantic._get_slice_offsets(
+            ifm.shape, end, op.attrs["end_mask"], is_begin=False, new_axis_mask=new_axis_mask
+        )
         # Check "end - begin" doesn't result in any zero or negative elements
         valid = True
         # if a shrink mask bit is set then the end position provided by the operation should be ignored, and instead a
